@@ -160,7 +160,17 @@ def _gen_build(rng, spin_mode, slot):
             atoms.append(["denom", den, rng.choice([1, 1, 2])])
         pref = [rng.choice([1, -1, 1, -1, 2, 3, -5]), rng.choice([1, 1, 2, 4, 3])]
         terms.append({"pref": pref, "atoms": atoms})
-    return {"op": "build", "slot": slot, "terms": terms, "targets": targets}
+    st = {"op": "build", "slot": slot, "terms": terms, "targets": targets}
+    if len(terms) >= 2 and rng.random() < 0.5:
+        # the sum is multiplied by common factors and handed to the library UNEXPANDED
+        fac = []
+        for _ in range(rng.choice([1, 1, 2])):
+            a = _gen_atom(rng, avail, spin_mode)
+            if a is not None:
+                fac.append(a)
+        if fac:
+            st["factor"] = fac
+    return st
 
 
 def _gen_wide_build(rng, spin_mode, slot):
@@ -587,6 +597,12 @@ class C08Session:
                 term *= self.mk_atom(a)
             expr += term
         targets = tuple(self.sym(t) for t in st["targets"])
+        raw = None
+        if st.get("factor") and expr.is_Add:
+            from sympy import Mul
+            fac = [self.mk_atom(a) for a in st["factor"]]
+            raw = Mul(expr, *fac, evaluate=True)
+            expr = raw
         expr = expr.expand()
         if expr == 0:
             self.probes["expr_zero_skipped"] += 1
@@ -594,7 +610,10 @@ class C08Session:
         # precondition (DESIGN §5.2): a name already handed out as generic is never a target
         targets = tuple(t for t in targets
                         if not self.model.was_generic(self.key_of(t), t.name))
-        self.slots[st["slot"]] = {"expr": expr, "targets": targets, "fp": None, "spec": st}
+        self.slots[st["slot"]] = {"expr": expr, "targets": targets, "fp": None, "spec": st,
+                                  "raw": raw if (raw is not None and raw != expr) else None}
+        if self.slots[st["slot"]]["raw"] is not None:
+            self.probes["unexpanded_input"] = self.probes.get("unexpanded_input", 0) + 1
         return {"built": str(expr), "targets": [str(t) for t in targets]}
 
     def op_respin(self, st):
@@ -660,6 +679,7 @@ class C08Session:
 
     def op_rename_sc(self, st, copy_mode=False):
         from adcgen import Expr
+        copy_mode = copy_mode or bool(st.get("keep"))
         sl = self._slot(st)
         if sl is None:
             return {"skip": True}
@@ -673,10 +693,12 @@ class C08Session:
             self.probes["sc_changed"] += 1
         if not copy_mode:
             sl["expr"] = after
+            sl["raw"] = None
         return {"sc": str(after)}
 
     def op_rename_gen(self, st, copy_mode=False):
         from adcgen import Expr
+        copy_mode = copy_mode or bool(st.get("keep"))
         sl = self._slot(st)
         if sl is None:
             return {"skip": True}
@@ -696,6 +718,7 @@ class C08Session:
         self.probes["gen_renamed"] += 1
         if not copy_mode:
             sl["expr"] = after
+            sl["raw"] = None
         return {"gen": str(after)}
 
     def op_rename_copy(self, st):
@@ -704,12 +727,14 @@ class C08Session:
         if sl is None:
             return {"skip": True}
         orig = self.make_expr(sl, st.get("route", 0))
+        before_sympy, before_targets = orig.sympy, orig.provided_target_idx
         cp = orig.copy()
         if st["how"] == "sc":
             cp.substitute_contracted()
         else:
             cp.substitute_with_generic()
-        if orig.sympy != sl["expr"] or orig.provided_target_idx != cp.provided_target_idx:
+        if orig.sympy != before_sympy or orig.provided_target_idx != before_targets or \
+                orig.provided_target_idx != cp.provided_target_idx:
             self.viol("rename", "c-alias", "renaming a copy changed the original expression")
         self._compare_value(sl, cp.sympy, "copy+" + st["how"])
         return {"copy": str(cp.sympy)}
@@ -772,6 +797,14 @@ class C08Session:
         expr, targets = sl["expr"], list(sl["targets"])
         nospin = not any(self.key_of(t)[1] for t in targets)
         route = route % 7
+        if sl.get("raw") is not None and route in (0, 2, 4, 6):
+            # the unexpanded (factored) form of the same expression
+            if route == 6 and self._einstein_targets(expr) != set(targets):
+                return Expr(sl["raw"], target_idx=targets)
+            expr = sl["raw"]
+            if route == 6:
+                self.probes["einstein_route"] = self.probes.get("einstein_route", 0) + 1
+                return Expr(expr)
         if route == 1 and nospin:
             return Expr(expr, target_idx=[t.name for t in targets])
         if route == 2:
